@@ -82,8 +82,8 @@ def dag_shapes(n, kinds=KINDS):
                 yield "".join(ks), edges
 
 
-def random_shape(rng, n):
-    ks = [rng.choice("CCTEESSUM") for _ in range(n)]
+def random_shape(rng, n, pool="CCTEESSUM"):
+    ks = [rng.choice(pool) for _ in range(n)]
     edges = {}
     density = rng.choice([0.25, 0.4, 0.6])
     for i in range(n):
@@ -103,7 +103,8 @@ class DefSet(object):
     """renders (kinds, edges) into the argument lists of frontends.to_isar_constants and keeps the
     abstract description: names, dependencies, flavours"""
 
-    def __init__(self, kinds, edges, form=0, rng=None):
+    def __init__(self, kinds, edges, form=0, rng=None, forms=None):
+        self.allowed_forms = forms       # expression forms to choose from (None: all, see _expr)
         self.kinds = kinds
         self.edges = {(int(a), int(b)): f for (a, b), f in edges.items()}
         self.form = form
@@ -155,8 +156,9 @@ class DefSet(object):
         (values already taken in the same enum / union) and not used anywhere else.
         forms: 0 bare name / a + b; 1 (a + b) * 2; 2 a*2 (no blanks); 3 shiftLeft(a, 1); 4 bitMaskOr(a, b)"""
         form = self.form if self.rng is None else self.rng.randrange(N_FORMS)
-        if forms is not None and form not in forms:
-            form = forms[form % len(forms)]
+        for allowed in (self.allowed_forms, forms):
+            if allowed is not None and form not in allowed:
+                form = allowed[form % len(allowed)]
         a, rest = terms[0], terms[1:]
         if form == 0 and not rest and self.env[a] not in local:
             return a, self.env[a]
@@ -621,56 +623,87 @@ def main():
         return replay(chk, chk.replay_mode)
     rng = random.Random(chk.seed)
     quick = chk.tier == "quick"
-    specs = []
-
-    def add(spec, cls, nontrivial):
-        spec["id"] = len(specs)
-        specs.append(spec)
-        chk.seen_class(cls, nontrivial)
+    nmax = 4 if quick else 5
+    mmax = 3 if quick else 4
+    n_rand = 60 if quick else 600
+    corpus = load_corpus()
+    counts = {"exhaustive": 0, "random": 0, "corpus": 0}
 
     def cross_kind(ks, edges):
         return any(ks[i] != ks[j] for (i, j) in edges)
 
-    # (a) every DAG shape over few definitions, every order isar lets vary
-    nmax = 4 if quick else 5
-    mmax = 3 if quick else 4
-    for n in range(1, nmax + 1):
-        for ks, edges in dag_shapes(n, KINDS if n <= mmax else KINDS[:5]):
-            forms = range(N_FORMS) if n <= 2 and any(f in ("expr", "value", "disc") for f in edges.values()) else [0]
+    def stream():
+        """(spec, class, nontrivial) of every definition set, smallest first"""
+        # (a) every DAG shape over few definitions, every order isar lets vary
+        for n in range(1, nmax + 1):
+            for ks, edges in dag_shapes(n, KINDS if n <= mmax else KINDS[:5]):
+                forms = range(N_FORMS) if n <= 2 and any(f in ("expr", "value", "disc") for f in edges.values()) else [0]
+                el = [[i, j, f] for (i, j), f in sorted(edges.items())]
+                for form in forms:
+                    counts["exhaustive"] += 1
+                    yield ({"label": "dag:%s:%s:f%d" % (ks, ",".join("%d>%d%s" % (i, j, f[0]) for i, j, f in el), form),
+                            "kinds": ks, "edges": el, "form": form},
+                           ("dag", "".join(sorted(ks)), tuple(sorted((ks[i], ks[j], f) for i, j, f in el))), cross_kind(ks, edges))
+        # (b) random larger sets: the dependency order itself + 6 random document permutations
+        for r in range(n_rand):
+            ks, edges = random_shape(rng, rng.randint(6, 12))
             el = [[i, j, f] for (i, j), f in sorted(edges.items())]
-            for form in forms:
-                add({"label": "dag:%s:%s:f%d" % (ks, ",".join("%d>%d%s" % (i, j, f[0]) for i, j, f in el), form),
-                     "kinds": ks, "edges": el, "form": form},
-                    ("dag", "".join(sorted(ks)), tuple(sorted((ks[i], ks[j], f) for i, j, f in el))), cross_kind(ks, edges))
-    n_exh = len(specs)
-    # (b) random larger sets: the dependency order itself + 6 random document permutations
-    n_rand = 60 if quick else 600
-    for r in range(n_rand):
-        ks, edges = random_shape(rng, rng.randint(6, 12))
-        el = [[i, j, f] for (i, j), f in sorted(edges.items())]
-        add({"label": "random:%d:%s" % (r, ks), "kinds": ks, "edges": el, "seed": rng.getrandbits(30), "norders": 6},
-            ("random", "".join(sorted(ks)), len(el)), cross_kind(ks, edges))
-    # (c) corpus
-    corpus = load_corpus()
-    for g in corpus:
-        add(g, ("corpus", g["label"]), True)
+            counts["random"] += 1
+            yield ({"label": "random:%d:%s" % (r, ks), "kinds": ks, "edges": el, "seed": rng.getrandbits(30), "norders": 6},
+                   ("random", "".join(sorted(ks)), len(el)), cross_kind(ks, edges))
+        # (c) corpus
+        for g in corpus:
+            counts["corpus"] += 1
+            yield g, ("corpus", g["label"]), True
 
     root = common.scratch("c15")
-    order = list(range(len(specs)))
-    random.Random(chk.seed + 1).shuffle(order)     # spread the expensive groups over the batches
-    total, dead = batch_screen([specs[i] for i in order], root)
-    by_sig = total["sigs"]
-
-    # stand-alone verdicts: per signature its three smallest inputs; groups whose worker died; a sample of clean groups
+    total = {"inputs": 0, "failing_inputs": 0, "sigs": {}, "clean": [], "groups": 0}
+    specs = {}          # id -> spec, only those needed after the screen (the others are dropped chunk by chunk)
     todo = {}
+    n_dead = 0
+    n_specs = 0
+    srng = random.Random(chk.seed + 1)
+
+    def flush(chunk):
+        srng.shuffle(chunk)                        # spread the expensive groups over the batches
+        part, dead = batch_screen(chunk, root)
+        by_id = {s["id"]: s for s in chunk}
+        for key in ("inputs", "failing_inputs", "groups"):
+            total[key] += part[key]
+        for sig, e in part["sigs"].items():
+            t = total["sigs"].setdefault(sig, {"count": 0, "smallest": []})
+            t["count"] += e["count"]
+            t["smallest"] = sorted(t["smallest"] + e["smallest"])[:3]
+            for _, _, gid, _ in e["smallest"]:
+                specs[gid] = by_id[gid]
+        # stand-alone later: groups whose worker died, a sample of the clean groups, the corpus
+        for s in dead:
+            specs[s["id"]] = s
+            todo.setdefault(s["id"], None)
+        clean = sorted(part["clean"])
+        for gid in srng.sample(clean, min(len(clean), 40 if quick else 12)) + [s["id"] for s in chunk if "xmls" in s]:
+            specs[gid] = by_id[gid]
+            todo.setdefault(gid, None)
+        return len(dead)
+
+    chunk = []
+    for spec, cls, nontrivial in stream():
+        spec["id"] = n_specs
+        n_specs += 1
+        chk.seen_class(cls, nontrivial)
+        chunk.append(spec)
+        if len(chunk) >= 20000:
+            n_dead += flush(chunk)
+            chunk = []
+    if chunk:
+        n_dead += flush(chunk)
+    n_exh = counts["exhaustive"]
+    by_sig = total["sigs"]
+    # stand-alone verdicts: per signature its three smallest inputs (plus what flush() queued)
     for sig, e in by_sig.items():
         for _, _, gid, k in e["smallest"]:
-            todo.setdefault(gid, set()).add(k)
-    for spec in dead:
-        todo.setdefault(spec["id"], None)
-    clean = sorted(total["clean"])
-    for gid in rng.sample(clean, min(len(clean), 40 if quick else 300)) + [s["id"] for s in specs if "xmls" in s]:
-        todo.setdefault(gid, None)
+            if todo.get(gid, 0) is not None:
+                todo.setdefault(gid, set()).add(k)
 
     def confirm(item):
         gid, ks = item
@@ -714,7 +747,7 @@ def main():
     chk.coverage["standalone_inputs"] = standalone_inputs
     chk.coverage["screen_only_failures_not_confirmed_standalone"] = screen_only
     chk.coverage["standalone_failures_missed_by_screen"] = missed_by_screen
-    chk.coverage["groups_whose_screen_worker_died"] = len(dead)
+    chk.coverage["groups_whose_screen_worker_died"] = n_dead
     chk.coverage["rule"] = (
         "isar definition sets: (a) every acyclic reference graph over <= %d definitions of kinds constant, typedef, enum, struct, "
         "union (and message up to %d), each edge in every flavour the kinds admit (constant expression naming a constant or an "
@@ -728,15 +761,15 @@ def main():
         "that of the first order of the same set. Screen in-process, verdicts through frontends.model_of + a fresh interpreter. "
         "sack is not exercised (C++ requires declaration before use, so its definition order cannot be permuted freely)."
         % (nmax, mmax, n_rand))
-    for spec in specs:
-        if spec["label"].startswith("random"):
+    for spec in specs.values():
+        if spec["label"].startswith("random") or len(spec.get("kinds", "")) >= 4:
             g = build_group(spec)
             chk.sample({"definitions": [d["text"] for d in g["definitions"]], "order": g["orders"][1], "xml": g["xmls"][1]})
             break
     if screen_only:
         print("note: failures seen only by the in-process screen (not reproduced stand-alone): %s" % screen_only)
     print("C15: %d definition sets, %d inputs, %d failing inputs, %d distinct signatures (%d confirmed stand-alone), %d stand-alone inputs" % (
-        len(specs), n_inputs, total["failing_inputs"], len(by_sig), len(confirmed), standalone_inputs))
+        n_specs, n_inputs, total["failing_inputs"], len(by_sig), len(confirmed), standalone_inputs))
     for kind, sig, occ, label in distinct:
         print("  - %s [%s]: %d inputs; smallest: %s" % (kind, sig, occ, label))
     chk.assumptions += ["dependencies of a definition = the names the generator wrote into it (types, constants, enumerators' enums)",
